@@ -123,6 +123,76 @@ pub fn opaque_string() -> String
 pub fn string_push_str(s: &mut String, t: &str)
 { s.push_str(t) }
 
+// ------------------------------------------------------------------ UTF-8 (R3 for from_utf8_unchecked)
+pub uninterp spec fn is_utf8(b: Seq<u8>) -> bool;
+pub uninterp spec fn str_bytes(s: &str) -> Seq<u8>;
+
+pub struct VUtf8Error { pub up_to: usize }
+impl VUtf8Error {
+    pub fn valid_up_to(&self) -> (r: usize) ensures r == self.up_to { self.up_to }
+}
+
+// std::str::from_utf8 (the error type is modelled by VUtf8Error: only valid_up_to() is observable)
+#[verifier::external_body]
+pub fn str_from_utf8(bytes: &[u8]) -> (r: Result<&str, VUtf8Error>)
+    ensures
+        match r {
+            Ok(s) => is_utf8(bytes@) && str_bytes(s) == bytes@ && (bytes@.len() == 0 ==> s@ == Seq::<char>::empty()) && (bytes@.len() > 0 ==> s@.len() > 0),
+            Err(e) => !is_utf8(bytes@) && e.up_to < bytes@.len() && is_utf8(bytes@.subrange(0, e.up_to as int)),
+        },
+{ unimplemented!() }
+
+// std::str::from_utf8_unchecked: the safety condition is that the bytes are valid UTF-8
+#[verifier::external_body]
+pub fn str_from_utf8_unchecked(bytes: &[u8]) -> (r: &str)
+    requires is_utf8(bytes@),
+    ensures str_bytes(r) == bytes@,
+{ unsafe { std::str::from_utf8_unchecked(bytes) } }
+
+// ------------------------------------------------------------------ iterator adapters (R6): verified helpers
+pub open spec fn count_of(s: Seq<u8>, c: u8) -> nat
+    decreases s.len()
+{
+    if s.len() == 0 { 0 } else { count_of(s.drop_last(), c) + (if s.last() == c { 1nat } else { 0nat }) }
+}
+
+// `s.iter().rev().position(|&b| b == c)`: distance of the last occurrence of c from the end
+pub fn rposition_eq(s: &[u8], c: u8) -> (r: Option<usize>)
+    ensures
+        match r {
+            Some(k) => k < s@.len() && s@[s@.len() - 1 - k] == c && (forall|j: int| s@.len() - k <= j < s@.len() ==> s@[j] != c),
+            None => forall|j: int| 0 <= j < s@.len() ==> s@[j] != c,
+        },
+{
+    let mut i = s.len();
+    while i > 0
+        invariant i <= s@.len(), forall|j: int| i <= j < s@.len() ==> s@[j] != c,
+        decreases i
+    {
+        i -= 1;
+        if s[i] == c { return Some(s.len() - 1 - i); }
+    }
+    None
+}
+
+// `s.iter().filter(|&&b| b == c).count()`
+pub fn count_eq(s: &[u8], c: u8) -> (r: usize)
+    ensures r == count_of(s@, c), r <= s@.len(),
+{
+    let mut n: usize = 0;
+    let mut i: usize = 0;
+    while i < s.len()
+        invariant i <= s@.len(), n == count_of(s@.subrange(0, i as int), c), n <= i,
+        decreases s@.len() - i
+    {
+        proof { assert(s@.subrange(0, i + 1).drop_last() =~= s@.subrange(0, i as int)); }
+        if s[i] == c { n += 1; }
+        i += 1;
+    }
+    proof { assert(s@.subrange(0, s@.len() as int) =~= s@); }
+    n
+}
+
 // ------------------------------------------------------------------ Vec shims (R23)
 #[verifier::external_body]
 pub fn copy_within_vec(v: &mut Vec<u8>, lo: usize, hi: usize, dest: usize)
